@@ -40,7 +40,7 @@ SLICES = {
 
 
 def run(ctx):
-    X.run_slices(ctx, SLICES, 90 if ctx.quick else 1500, [
+    X.run_slices(ctx, SLICES, 90 if ctx.quick else 800, [
         'MiniFortran subset (see C01); regions are statement ranges that control can only leave by falling through (no EXIT/CYCLE/RETURN out of the region)',
         'in()/inout()/out() options are only generated when they are consistent with the region (promotion of read-only to in, of anything definable to inout, of a variable assigned first to out)',
         'regions that call internal procedures are only generated together with extract_internals=True',
